@@ -39,4 +39,110 @@ UNITS = {
             "verus external_body: DhtKey::distance ensures is_xor (same contract proved on the real fn by Kani c02_distance_is_xor)",
         ],
     },
+    "live": {
+        "property": "C16",
+        "src": "src/dht/routing_maintenance/liveness.rs",
+        "spec": "verus/live.spec.rs",
+        "shims": {
+            "NodeLivenessState": (None, {"consecutive_failures": "u32", "total_successes": "u64", "total_failures": "u64"}),
+            "MaintenanceConfig": ("src/dht/routing_maintenance/config.rs", {"max_consecutive_failures": "u32"}),
+        },
+        "items": [
+            {"impl": "NodeLivenessState", "fn": "new",
+             "drop": [r"last_seen: Instant::now\(\),\n"],
+             "spec": """
+    ensures
+        r.consecutive_failures == 0, // @C16/live/new_starts_at_zero
+"""},
+            {"impl": "NodeLivenessState", "fn": "record_failure",
+             "spec": """
+    requires
+        old(self).consecutive_failures < u32::MAX,
+        old(self).total_failures < u64::MAX,
+    ensures
+        final(self).consecutive_failures == old(self).consecutive_failures + 1, // @C16/live/failure_increments
+        final(self).total_successes == old(self).total_successes, // @C16/live/failure_frame
+"""},
+            {"impl": "NodeLivenessState", "fn": "record_success",
+             "drop": [r"self\.last_seen = Instant::now\(\);\n"],
+             "spec": """
+    requires
+        old(self).total_successes < u64::MAX,
+    ensures
+        final(self).consecutive_failures == 0, // @C16/live/one_success_clears
+        final(self).total_failures == old(self).total_failures, // @C16/live/success_frame
+"""},
+            {"impl": "NodeLivenessState", "fn": "should_evict",
+             "spec": """
+    ensures
+        r == (self.consecutive_failures >= config.max_consecutive_failures), // @C16/live/evict_iff_max_consecutive_failures
+"""},
+        ],
+        "paired_kani": ["c16_liveness_step"],
+        "trusted": [
+            "verus precondition: fewer than 2^32 consecutive failures / 2^64 events per peer (otherwise `+= 1` overflows and panics in debug builds)",
+            "dropped statements write only NodeLivenessState.last_seen (Instant), which no contract mentions",
+        ],
+    },
+    "seq": {
+        "property": "C12",
+        "src": "src/monotonic_counter.rs",
+        "spec": "verus/seq.spec.rs",
+        "shims": {
+            "MonotonicCounterSystem": (None, {}),
+            "SequenceEntry": (None, {"sequence": "u64", "timestamp": "u64", "message_hash": "[u8; 32]"}),
+            "PeerCounter": (None, {"current_sequence": "u64", "last_valid_sequence": "u64",
+                                   "sequence_history": "Vec<SequenceEntry>", "last_updated": "u64",
+                                   "replay_attempts": "u64", "sequence_gaps": "u64"}),
+        },
+        "enums": ["SequenceValidationResult"],
+        "consts_verbatim": ["MAX_SEQUENCE_HISTORY"],
+        "consts": {"MAX_SEQUENCE_AGE": (None, r"Duration::from_secs\(([0-9_]+)\)"),
+                   "MAX_SEQUENCE_HISTORY": (None, r"([0-9_]+)")},
+        "items": [
+            {"impl": "PeerCounter", "fn": "new",
+             "spec": """
+    ensures
+        r.last_valid_sequence == 0, // @C12/seq/new_last_is_zero
+        r.sequence_history@.len() == 0, // @C12/seq/new_history_empty
+"""},
+            {"impl": "MonotonicCounterSystem", "fn": "validate_sequence_internal",
+             "rewrite": [(r"MAX_SEQUENCE_AGE\.as_secs\(\)", "@MAX_SEQUENCE_AGE@u64", "Duration const -> its seconds, value re-derived from the const definition")],
+             "spec": """
+    requires
+        peer_counter.last_valid_sequence < u64::MAX,
+    ensures
+        (r == SequenceValidationResult::Valid) ==> (sequence == peer_counter.last_valid_sequence + 1), // @C12/seq/valid_only_for_next_in_order
+        (r == SequenceValidationResult::Valid) ==> !seen(peer_counter, sequence, message_hash), // @C12/seq/valid_never_for_seen
+        (sequence <= peer_counter.last_valid_sequence) ==> (r != SequenceValidationResult::Valid), // @C12/seq/old_numbers_never_accepted
+        r matches SequenceValidationResult::Gap { expected, received } ==> (expected == peer_counter.last_valid_sequence + 1 && received == sequence && sequence > expected), // @C12/seq/gap_classification
+        (r == SequenceValidationResult::Replay) ==> (seen(peer_counter, sequence, message_hash) || sequence <= peer_counter.last_valid_sequence), // @C12/seq/replay_classification
+        (sequence == peer_counter.last_valid_sequence + 1 && !seen(peer_counter, sequence, message_hash)) ==> (r == SequenceValidationResult::Valid || r == SequenceValidationResult::FromFuture || r == SequenceValidationResult::TooOld), // @C12/seq/next_in_order_accepted_unless_time_window
+"""},
+            {"impl": "PeerCounter", "fn": "apply_sequence_update",
+             "spec": """
+    ensures
+        final(self).last_valid_sequence == sequence, // @C12/seq/apply_sets_last
+        final(self).current_sequence == sequence, // @C12/seq/apply_sets_current
+        final(self).sequence_history@.len() <= old(self).sequence_history@.len() + 1, // @C12/seq/history_grows_by_at_most_one
+        old(self).sequence_history@.len() <= @MAX_SEQUENCE_HISTORY@ ==> final(self).sequence_history@.len() <= @MAX_SEQUENCE_HISTORY@, // @C12/seq/history_bounded
+        final(self).sequence_history@.last().sequence == sequence && final(self).sequence_history@.last().message_hash == message_hash, // @C12/seq/applied_entry_recorded
+        final(self).replay_attempts == old(self).replay_attempts && final(self).sequence_gaps == old(self).sequence_gaps, // @C12/seq/apply_frame
+"""},
+            {"impl": "PeerCounter", "fn": "next_expected_sequence",
+             "spec": """
+    requires
+        self.last_valid_sequence < u64::MAX,
+    ensures
+        r == self.last_valid_sequence + 1, // @C12/seq/next_expected_is_last_plus_one
+"""},
+        ],
+        "paired_kani": ["c12_validate_internal"],
+        "trusted": [
+            "verus external_body: PeerCounter::has_seen_sequence ensures r == seen(..) (proved on the real fn by Kani, bounded history length)",
+            "verus external_body: current_timestamp() < 2^48 (clock; machine arithmetic on time does not overflow)",
+            "verus precondition: last_valid_sequence < u64::MAX (fewer than 2^64 accepted numbers; `last + 1` would overflow)",
+            "validate_sequence_internal takes &PeerCounter: that it changes no state is enforced by the Rust type system",
+        ],
+    },
 }
